@@ -480,6 +480,196 @@ def judge_history(case, res, rep, tx, fields, what):
         res.witness('history_step_changed_raw_and_id')
 
 
+# -- operation histories on one Transaction object ------------------------------------------------------------
+#
+# The wallet edits transactions in place between serialisations: Transaction.create() reads size/base fee, adds
+# inputs and change outputs, Output.sign()/set_channel_private_key()/the daemon regenerate an output script in
+# place (txo.script.values[...] = ...; txo.script.generate()), sign() rewrites every input script and calls
+# _reset(), spend_time_lock() assigns locktime/sequence and calls _reset().  After any such history tx.raw,
+# tx.id, tx.hash and tx.size must describe the CURRENT fields.
+
+H_OPS = ['read', 'add_output', 'add_input', 'out_regen_same', 'out_regen_grow', 'out_replace_script', 'out_amount',
+         'in_sequence', 'in_regen', 'locktime', 'version']
+H_NORESET = ['out_regen_grow', 'out_replace_script', 'out_amount', 'in_sequence', 'in_regen', 'locktime']
+H_BASES = {
+    'p2pkh': {},
+    'claim': dict(out_kind='claim_name+pay_pubkey_hash', out_len=40),
+    'two-updates': dict(n_in=2, n_out=2, out_kind='update_claim+pay_pubkey_hash', out_len=75),
+    'support-data-script-hash': dict(out_kind='support_claim+data+pay_script_hash', out_len=3, n_out=2),
+    'return-data': dict(out_kind='return_data', out_len=21, in_kind='script_hash+timelock', n_out=2),
+    'p2sh-253-outputs': dict(out_kind='pay_script_hash', n_out=253),
+}
+_REGEN_SLOT = ('claim', 'support', 'data', 'pubkey_hash', 'script_hash', 'pubkey')
+
+
+def _regen_slot(o):
+    for k in _REGEN_SLOT:
+        if k in o['values']:
+            return k
+    return None
+
+
+def h_apply(op, step, tx, fields, case, reset=True):
+    """Apply one edit to the library object and to the reference fields (returns the new fields)."""
+    from lbry.wallet.script import OutputScript
+    n_in, n_out = len(fields['inputs']), len(fields['outputs'])
+    big = dict(case, n_in=n_in + 1, n_out=n_out + 1)
+    if op == 'add_output':
+        o = expand_output(big, n_out)
+        tx.add_outputs([lib_output(o)])
+        return dict(fields, outputs=fields['outputs'] + [o])
+    if op == 'add_input':
+        i = expand_input(big, n_in)
+        tx.add_inputs([lib_input(i)])
+        return dict(fields, inputs=fields['inputs'] + [i])
+    if op.startswith('out_'):
+        j = step % n_out
+        o = dict(fields['outputs'][j])
+        txo = tx.outputs[j]
+        if op in ('out_regen_same', 'out_regen_grow'):
+            slot = _regen_slot(o)
+            if slot is None:
+                raise Skip('output has no template values')
+            old = o['values'][slot]
+            new = blob(len(old) if op == 'out_regen_same' else (len(old) + 41) % 300, 150 + step)
+            if new == old:
+                new = blob(len(old), 151 + step)
+            o['values'] = dict(o['values'], **{slot: new})
+            o['script'] = ref_out_script(o['kind'], o['values'])
+            txo.script.values[slot] = new       # exactly what Output.sign / the daemon do
+            txo.script.generate()
+        elif op == 'out_replace_script':
+            o['kind'], o['values'] = 'raw', {'script': unknown_script(30 + step, 160 + step)}
+            o['script'] = o['values']['script']
+            txo.script = OutputScript(o['script'])
+        elif op == 'out_amount':
+            o['amount'] = (o['amount'] * 3 + 0x8000000000000001 + step) % 2 ** 64
+            txo.amount = o['amount']
+        outs = list(fields['outputs'])
+        outs[j] = o
+        fields = dict(fields, outputs=outs)
+    elif op.startswith('in_'):
+        k = step % n_in
+        i = dict(fields['inputs'][k])
+        txi = tx.inputs[k]
+        if op == 'in_sequence':
+            i['sequence'] = (i['sequence'] + 0x80000001 + step) % 2 ** 32
+            txi.sequence = i['sequence']
+        else:
+            if i['kind'] not in ('pubkey_hash', 'pubkey', 'script_hash+timelock'):
+                raise Skip('input has no signature slot')
+            i['values'] = dict(i['values'], signature=blob(71 + step % 3, 170 + step))
+            i['script'] = ref_in_script(i['kind'], i['values'])
+            txi.script.values['signature'] = i['values']['signature']     # exactly what Transaction.sign does
+            txi.script.generate()
+        ins = list(fields['inputs'])
+        ins[k] = i
+        fields = dict(fields, inputs=ins)
+    elif op == 'locktime':
+        fields = dict(fields, locktime=(fields['locktime'] + 0x80000001 + step) % 2 ** 32)
+        tx.locktime = fields['locktime']
+    elif op == 'version':
+        fields = dict(fields, version=(fields['version'] + 0x80000001 + step) % 2 ** 32)
+        tx.version = fields['version']
+    else:
+        raise KeyError(op)
+    if reset:
+        tx._reset()
+    return fields
+
+
+def h_read(tx, fields):
+    """None when raw / id / hash / size describe the current fields, else the name of the first stale view."""
+    from refs import btc_tx as bt
+    exp = bt.encode_legacy(plain(fields))
+    h = bt.sha256d(exp)
+    if tx.raw != exp:
+        return 'raw'
+    if tx.hash != h:
+        return 'hash'
+    if tx.id != h[::-1].hex():
+        return 'id'
+    if tx.size != len(exp):
+        return 'size'
+    # what Transaction.create() reads between edits
+    if tx.base_size != len(exp) - sum(len(bt._ser_input(i)) for i in plain(fields)['inputs']) \
+            - sum(len(bt._ser_output(o)) for o in plain(fields)['outputs']):
+        return 'base_size'
+    return None
+
+
+def evaluate_ops(case, res, rep=None):
+    """case: family='ops', base, start ('built'|'parsed'), ops (tuple), final_noreset (op or '')."""
+    from lbry.wallet.transaction import Transaction
+    rep = rep or {'case': case}
+    res.count('evaluations')
+    bcase = dict(BASE, **H_BASES[case['base']])
+    fields = expand(bcase)
+    what = f"history base={case['base']} start={case['start']} ops={'>'.join(case['ops'])}" + \
+           (f">{case['final_noreset']}(no _reset)" if case['final_noreset'] else '')
+    sig = {'family': 'legacy', 'oracle': 'ops-history', 'start': case['start']}
+    last = 'build'
+    try:
+        tx = lib_build(fields)
+        if case['start'] == 'parsed':
+            tx = Transaction(tx.raw)
+        for step, op in enumerate(case['ops']):
+            if op == 'read':
+                stale = h_read(tx, fields)
+                res.count('transitions')
+                if stale:
+                    res.violation(dict(sig, after=last, view=stale),
+                                  f'{what}: after {last} (step {step}) tx.{stale} is not that of the current fields', rep)
+                    return
+            else:
+                fields = h_apply(op, step, tx, fields, bcase)
+                last = op
+                res.count('transitions')
+        if case['final_noreset']:
+            if h_read(tx, fields):      # warm every cache first; must be consistent here
+                res.violation(dict(sig, after=last, view='pre-noreset'), f'{what}: stale before the last edit', rep)
+                return
+            fields = h_apply(case['final_noreset'], len(case['ops']), tx, fields, bcase, reset=False)
+            if h_read(tx, fields):
+                res.tally('interpretation_only:in_place_edit_without_reset_serves_cached_serialisation')
+            res.count('executions')
+            return
+        stale = h_read(tx, fields)
+    except Skip:
+        res.count('evaluations', -1)
+        res.count('ops_history_not_applicable')
+        return
+    except Exception as e:   # noqa
+        res.violation(dict(sig, after=last, exception=exc_name(e)), f'{what}: raised {e!r:.120}', rep)
+        return
+    res.count('executions')
+    if stale:
+        res.violation(dict(sig, after=last, view=stale),
+                      f'{what}: after {last} tx.{stale} is not that of the current fields (stale cache)', rep)
+        return
+    if judge_parsed(res, dict(sig, after=last), rep, tx.raw, plain(fields), fields, what) is None:
+        return
+    res.distinct_add('nontrivial', ('ops', case['base'], case['start'], case['ops']))
+    if any(o.startswith(('out_', 'in_')) for o in case['ops']):
+        res.witness('in_place_edit_after_serialisation_then_reset')
+
+
+def ops_cases(quick):
+    depth = 3 if quick else 4
+    bases = list(H_BASES)
+    for base in bases:
+        heavy = H_BASES[base].get('n_out', 1) > 50
+        for start in ('built', 'parsed'):
+            for n in range(1, (2 if heavy else depth) + 1):
+                for ops in itertools.product(H_OPS, repeat=n):
+                    if ops[-1] == 'read':
+                        continue            # every history ends with a read anyway
+                    yield dict(family='ops', base=base, start=start, ops=ops, final_noreset='')
+            for pre in [()] + [(o,) for o in H_OPS if o != 'read']:
+                for op in H_NORESET:
+                    yield dict(family='ops', base=base, start=start, ops=pre, final_noreset=op)
+
+
 def evaluate_segwit(case, res, rep=None):
     from refs import btc_tx as bt
     rep = rep or {'case': case}
@@ -811,7 +1001,7 @@ def work(item, res):
         return
     if kind == 'cases':
         for case in payload:
-            (evaluate_segwit if case['family'] == 'segwit' else evaluate_legacy)(case, res)
+            {'segwit': evaluate_segwit, 'ops': evaluate_ops}.get(case['family'], evaluate_legacy)(case, res)
     elif kind == 'fixtures':
         for name in payload:
             evaluate_fixture(name, res)
@@ -837,8 +1027,10 @@ def run(ctx):
     items += list(batches(sorted(prod, key=weight, reverse=True)))
     items += list(batches(sorted(sweeps, key=weight, reverse=True)))
     items += list(batches(seg))
+    ops = list(ops_cases(ctx.quick))
+    items += [('cases', ops[i:i + 600]) for i in range(0, len(ops), 600)]
     # heaviest first so that the pool drains evenly
-    items.sort(key=lambda it: -sum(weight(c) for c in it[1]) if it[0] == 'cases' else 0)
+    items.sort(key=lambda it: -sum(weight(c) for c in it[1]) if it[0] == 'cases' and 'n_in' in it[1][0] else 0)
     ctx.pmap(work, items)
     ctx.res.sample({'case': 'base', 'fields': BASE})
     ctx.res.sample({'case': 'sweep', 'fields': dict(BASE, out_kind='claim_name+pay_pubkey_hash', out_total=253)})
@@ -853,10 +1045,16 @@ def run(ctx):
               'alphabets in bounds.product, every single-dimension deviation from the base case over the full '
               'alphabets, out_kind x length/total-length, in_kind x length, counts x counts, version x sequence x '
               'locktime, amount x counts/kinds, dense length windows 0..299 and 65530..65540, fixtures, and the segwit '
-              'grid (1-3 inputs x 0-3 witness items each x 7 size patterns x 5 locktimes).  Non-trivial = distinct case '
+              'grid (1-3 inputs x 0-3 witness items each x 7 size patterns x 5 locktimes).  Operation histories: every '
+              'sequence of up to ops_max_len steps over ops_alphabet (read = compare raw/id/hash/size/base_size with the '
+              'reference; in-place edits of an output script / amount / input script / sequence / locktime / version each '
+              'followed by _reset(); add_input/add_output) on 6 base transactions, built and parsed, every history ending '
+              'in a read and a parse-back.  Non-trivial = distinct case '
               'other than the all-defaults base case that was built, serialised, parsed and compared completely.'),
         exhaustive=True,
         bounds={'tier': ctx.tier, 'product_cases': len(prod), 'sweep_cases': len(sweeps), 'segwit_cases': len(seg),
+                'ops_histories': len(ops), 'ops_alphabet': H_OPS, 'ops_max_len': 3 if ctx.quick else 4,
+                'ops_bases': list(H_BASES),
                 'fixtures': len(fixture_list()),
                 'product': ('n_in 2 x n_out 3 x 5 output kinds x 3 lengths x 3 input kinds x 2 lengths x 2 versions x '
                             '2 sequences x 2 locktimes x 3 amounts' if ctx.quick else
@@ -871,6 +1069,8 @@ def run(ctx):
             'transaction in the identical wire format) the segwit inputs are synthetic, produced by the reference encoder',
             'transactions the library can build = anything the Transaction/Input/Output constructors and the '
             'Output.pay_* / InputScript.redeem_* helpers accept; version is compared as the unsigned 32-bit wire value',
+            'in-place edits of inputs/outputs must be followed by Transaction._reset() (as sign() and spend_time_lock() '
+            'do); the same edits without _reset() are observed and tallied only',
             'a parsed segwit transaction is not required to re-serialise with its witness after _reset() (the statement '
             'demands identical re-serialisation of what the library can build); tallied instead',
         ],
@@ -878,7 +1078,7 @@ def run(ctx):
                             'output_script_needs_5_byte_compact_size', 'output_script_needs_3_byte_compact_size',
                             'input_script_needs_3_byte_compact_size', 'amount_above_int64', 'uint32_field_above_int32',
                             'segwit_synthetic_parsed', 'segwit_published_vector_parsed', 'mainnet_fixture_roundtrip',
-                            'history_step_changed_raw_and_id'],
+                            'history_step_changed_raw_and_id', 'in_place_edit_after_serialisation_then_reset'],
     )
 
 
@@ -898,6 +1098,12 @@ def replay(data):
         log = f"fixture {data['fixture']}"
     else:
         case = _fix_case(data['case'])
+        if case['family'] == 'ops':
+            case['ops'] = tuple(case['ops'])
+            evaluate_ops(case, res, data)
+            for v in res.violations.values():
+                return True, f"ops history {case}\n" + v['what']
+            return False, f'ops history {case}: raw/id/hash/size follow every edit'
         (evaluate_segwit if case['family'] == 'segwit' else evaluate_legacy)(case, res, data)
         log = case_brief(case)
         try:
